@@ -392,6 +392,7 @@ pub fn run(args: &Args) -> Report {
         harness_errors: 0,
     };
     let mut sweeps_complete = 0u64;
+    let mut grids_complete = 0u64;
     let mut i = 0u64;
     while Instant::now() < deadline {
         i += 1;
@@ -451,6 +452,34 @@ pub fn run(args: &Args) -> Report {
         if complete {
             sweeps_complete += 1;
         }
+        // (2b) complete two-preemption grid for small scenarios: the victim stalls at its gate k, the next
+        //      thread runs exactly b gates, the victim runs to completion, then the rest
+        let grid_cap: u64 = if args.tier_thorough { 8000 } else { 500 };
+        if complete {
+            let g = out0.per_thread_gates.clone();
+            for victim in 0..n {
+                let other = (victim + 1) % n;
+                let (gv, go) = (g.get(victim).copied().unwrap_or(0) + 2, g.get(other).copied().unwrap_or(0) + 2);
+                if gv * go > grid_cap || n < 2 {
+                    continue;
+                }
+                let mut done_grid = true;
+                'grid: for k in 1..=gv {
+                    for b in 1..=go {
+                        if Instant::now() > deadline {
+                            done_grid = false;
+                            break 'grid;
+                        }
+                        let st = Strategy::Stall { victim, k, order_rot: 0, burst: b };
+                        let out = run_once(&sc, &st, &rc, &mut cache);
+                        absorb(&mut rep, &mut acc, prop, &sc, &st, crash_every, &out);
+                    }
+                }
+                if done_grid {
+                    grids_complete += 1;
+                }
+            }
+        }
         // (3) stall with bounded bursts, random walks, PCT
         let extra = if args.tier_thorough { 120 } else { 40 };
         for j in 0..extra {
@@ -468,6 +497,7 @@ pub fn run(args: &Args) -> Report {
     }
     rep.add("scenarios", i);
     rep.add("one_stall_sweeps_complete", sweeps_complete);
+    rep.add("two_preemption_grids_complete", grids_complete);
     rep.add("gates", acc.gates);
     rep.add("distinct_schedules", acc.schedules.len() as u64);
     rep.add("distinct_conflict_signatures", acc.conflicts.len() as u64);
